@@ -38,11 +38,13 @@ def BVV(v):
 def key(ev):
     if ev["op"] == "atomic":
         return ("atomic",) + tuple(key(x) for x in ev["seq"])
+    if ev["op"] == "default":
+        return ("default", ev.get("obj", ""), tuple(key(x) for x in ev.get("alts", [])))
     return (ev["op"], ev.get("obj", ""), ev.get("arg", 0), ev.get("outcome", ""))
 
 
 NOEFFECT_MARKS = {"read_message"}
-SHARED_OPS = ("load", "store", "cas", "swap", "add", "wait", "close", "recv", "once_enter", "once_exit")
+SHARED_OPS = ("load", "store", "cas", "swap", "add", "wait", "close", "recv", "send", "default", "once_enter", "once_exit")
 
 
 def reduce_paths(threads):
@@ -87,7 +89,7 @@ def reduce_paths(threads):
         inner = evs[i + 1:j]
         nonmovers = [x for x in inner
                      if not (x["op"] in ("load", "store", "cas", "swap") and protected(x["obj"], m))]
-        simple = all(x["op"] not in ("lock", "rlock", "unlock", "runlock", "spawn", "wait", "recv", "mark")
+        simple = all(x["op"] not in ("lock", "rlock", "unlock", "runlock", "spawn", "wait", "recv", "send", "default", "mark")
                      for x in inner)
         return j, simple and len(nonmovers) <= 1
 
@@ -177,7 +179,7 @@ def build(spec):
     return trees
 
 
-GHOST_BOOLS = ("lclosed", "closeRet", "panicked", "badB", "badC", "badD", "badE", "ranHandler", "serveNil")
+GHOST_BOOLS = ("lclosed", "lclosed2", "closeRet", "panicked", "badB", "badC", "badD", "badE", "ranHandler", "serveNil")
 
 
 def check(spec):
@@ -194,13 +196,14 @@ def check(spec):
     for (_, _, _, ev, _) in edges:
         flat.extend(ev["seq"] if ev["op"] == "atomic" else [ev])
     atoms, wgs, chans, onces, locks = set(), set(), set(), set(), set()
+    flat = flat + [a for ev in flat if ev["op"] == "default" for a in ev.get("alts", [])]
     for ev in flat:
         op, obj = ev["op"], ev.get("obj", "")
         if op in ("load", "store", "cas", "swap"):
             atoms.add(obj)
         elif op in ("add", "wait"):
             wgs.add(obj)
-        elif op in ("close", "recv"):
+        elif op in ("close", "recv", "send"):
             chans.add(obj)
         elif op in ("once_enter", "once_exit"):
             onces.add(obj)
@@ -218,6 +221,7 @@ def check(spec):
             s[("wg", w)] = BV("wg_%s_%d" % (w, k))
         for c in chans:
             s[("closed", c)] = z3.Bool("closed_%s_%d" % (c, k))
+            s[("cnt", c)] = BV("cnt_%s_%d" % (c, k))
         for o in onces:
             s[("once", o)] = BV("once_%s_%d" % (o, k))
         for l in locks:
@@ -227,6 +231,7 @@ def check(spec):
             s[g] = z3.Bool("%s_%d" % (g, k))
         s["running"] = BV("running_%d" % k)
         s["nCloseRet"] = BV("ncloseret_%d" % k)
+        s["nServeNil"] = BV("nservenil_%d" % k)
         return s
 
     S = [vars_at(k) for k in range(K + 1)]
@@ -242,6 +247,7 @@ def check(spec):
         cons.append(s0[("wg", w)] == 0)
     for c in chans:
         cons.append(z3.Not(s0[("closed", c)]))
+        cons.append(s0[("cnt", c)] == 0)
     for o in onces:
         cons.append(s0[("once", o)] == 0)
     for l in locks:
@@ -251,6 +257,7 @@ def check(spec):
         cons.append(z3.Not(s0[g]))
     cons.append(s0["running"] == 0)
     cons.append(s0["nCloseRet"] == 0)
+    cons.append(s0["nServeNil"] == 0)
 
     def guard(ev, s):
         op, obj, arg, out = ev["op"], ev.get("obj", ""), ev.get("arg", 0), ev.get("outcome", "")
@@ -264,7 +271,18 @@ def check(spec):
         if op == "wait":
             return s[("wg", obj)] == 0
         if op == "recv":
-            return s[("closed", obj)]
+            # buffered items are delivered first, also on a closed channel
+            if out == "ok":
+                return s[("cnt", obj)] != 0
+            if out == "closed":
+                return z3.And(s[("cnt", obj)] == 0, s[("closed", obj)])
+            return z3.Or(s[("cnt", obj)] != 0, s[("closed", obj)])
+        if op == "send":
+            # buffered channel of capacity arg (a send on a closed channel is
+            # enabled too: it panics)
+            return z3.Or(z3.ULT(s[("cnt", obj)], BVV(arg)), s[("closed", obj)])
+        if op == "default":
+            return z3.And([z3.Not(guard(a, s)) for a in ev.get("alts", [])] or [z3.BoolVal(True)])
         if op == "once_enter":
             return s[("once", obj)] == (0 if out == "first" else 2)
         if op == "lock":
@@ -273,6 +291,8 @@ def check(spec):
             return z3.Not(s[("wr", obj)])
         if op == "mark" and obj == "accept":
             return s["lclosed"]
+        if op == "mark" and obj == "accept2":
+            return s["lclosed2"]
         return z3.BoolVal(True)
 
     def effects(ev, s):
@@ -288,6 +308,11 @@ def check(spec):
             e[("wg", obj)] = s[("wg", obj)] + BVV(arg)
             if arg < 0:
                 e["panicked"] = z3.Or(s["panicked"], (s[("wg", obj)] + BVV(arg)) < 0)  # negative counter
+        elif op == "recv":
+            e[("cnt", obj)] = z3.If(s[("cnt", obj)] != 0, s[("cnt", obj)] - 1, s[("cnt", obj)])
+        elif op == "send":
+            e[("cnt", obj)] = z3.If(s[("closed", obj)], s[("cnt", obj)], s[("cnt", obj)] + 1)
+            e["panicked"] = z3.Or(s["panicked"], s[("closed", obj)])  # send on closed channel
         elif op == "close":
             e[("closed", obj)] = z3.BoolVal(True)
             e["panicked"] = z3.Or(s["panicked"], s[("closed", obj)])  # close of closed channel
@@ -306,6 +331,8 @@ def check(spec):
         elif op == "mark":
             if obj == "lclose":
                 e["lclosed"] = z3.BoolVal(True)
+            elif obj == "lclose2":
+                e["lclosed2"] = z3.BoolVal(True)
             elif obj == "handler_start":
                 e["running"] = s["running"] + 1
                 e["badB"] = z3.Or(s["badB"], s["closeRet"])
@@ -320,6 +347,7 @@ def check(spec):
                 e["badD"] = z3.BoolVal(True)
             elif obj == "serve_nil":
                 e["serveNil"] = z3.BoolVal(True)
+                e["nServeNil"] = s["nServeNil"] + 1
         return e
 
     def apply(ev, s):
@@ -382,6 +410,7 @@ def check(spec):
     all_done = z3.And([z3.Or(z3.Not(last[("act", ti)]), z3.Or([last[("pc", ti)] == nn for nn in leaf[ti]]))
                        for ti, _ in enumerate(trees)])
     nclose = sum(1 for t in trees if t.name.startswith("close"))
+    nserve = sum(1 for t in trees if t.name.startswith("serve") and "/" not in t.name)
     queries = [
         ("a-no-panic", last["panicked"]),
         ("b-no-handler-after-close-returned", last["badB"]),
@@ -389,7 +418,7 @@ def check(spec):
         ("d-serve-returns-nil", last["badD"]),
         ("e-no-deadlock", last["badE"]),
         ("w-graceful-run", z3.And(all_done, last["ranHandler"] if spec.get("need_handler", True) else z3.BoolVal(True),
-                                  last["serveNil"], last["nCloseRet"] == nclose,
+                                  last["serveNil"], last["nServeNil"] == nserve, last["nCloseRet"] == nclose,
                                   z3.Not(last["panicked"]), z3.Not(last["badB"]), z3.Not(last["badC"]),
                                   z3.Not(last["badE"]))),
     ]
